@@ -52,7 +52,7 @@ class Watch:
         self.roundtrip = set()
 
     def flag(self, d, sig, what, i, op):
-        if any(e[0] == "orphan-pageout-success" for e in d.events) or self.readd_suspect(d):
+        if S.readd_evidence(d):
             sig = SIG_READD
         self.bad.append((sig, f"op {i} {op}: {what}", i))
 
@@ -66,9 +66,9 @@ class Watch:
             self.tmax = max(self.tmax, op[3] if k == "add" else op[2])
         now = self.tmax
         # io of a page-out job whose dataset object is gone, finding a segment: the C09 face of the readd finding
-        if k == "io" and ob[1]:
+        if k in ("io", "unlink") and ob[1]:
             j = d.board.jobs[op[1]]
-            if j.kind == "out" and j.ok and (m.datasets.get(d.key_for(j.shmid)) is not d.job_obj.get(op[1]) or d.job_obj.get(op[1]) is None):
+            if j.kind == "out" and (j.ok or j.phase == "unlink") and (m.datasets.get(d.key_for(j.shmid)) is not d.job_obj.get(op[1]) or d.job_obj.get(op[1]) is None):
                 d.readd_io = True
         # ---- bookkeeping + checks per request
         if k == "add" and ob[2] == "" and ob[1] is not None:
@@ -198,13 +198,7 @@ class Epilogue:
         self.expect = None
 
     def drain(self, d):
-        ops = []
-        for j in d.board.jobs:
-            if j.phase == "io":
-                ops += [["io", j.jid, False], ["cb", j.jid]]
-            elif j.phase == "cb":
-                ops.append(["cb", j.jid])
-        return ops
+        return d.pending_job_steps()
 
     def __call__(self, d):
         m = d.m
@@ -274,16 +268,16 @@ def evaluate(env, cap, ops, rng=None, with_epilogue=True):
     bad = list(w.bad)
     if with_epilogue and ep.verdict == "stuck":
         sig = "eviction-stuck"
-        if any(e[0] == "orphan-pageout-success" for e in d.events) or getattr(d, "readd_io", False):
+        if S.readd_evidence(d):
             sig = SIG_READD
         bad.append((sig, f"a patient client asking for {ep.expect[0]} bytes (free {ep.expect[1]}, evictable {ep.expect[2]}) was answered `wait` "
                          f"{ep.rounds} times with all disk jobs completed in between; lock held: {d.m.pageout_all.locked()}, pageout_count {d.m.pageout_count}, "
                          f"datasets {S.snapshot(d.m)}", len(obs) - 1))
     if crash:
-        bad.append(("server-crash" if not any(e[0] == "orphan-pageout-success" for e in d.events) else SIG_READD,
+        bad.append(("server-crash" if not S.readd_evidence(d) else SIG_READD,
                     f"op {crash[2]}: {crash[0]} left LocalServer.start ({crash[1]})", crash[2]))
     for e in d.events:
-        if e[0] == "callback-raised" and not any(x[0] == "orphan-pageout-success" for x in d.events):
+        if e[0] == "callback-raised" and not S.readd_evidence(d):
             bad.append(("callback-raised", f"a disk-job callback raised {e[2]} (lock/counter out of step)", e[1]))
     return d, ops, obs, crash, bad, w, ep
 
@@ -314,7 +308,7 @@ def reader_history(rng):
                 kk, r = held.pop(rng.randrange(len(held)))
                 ops.append(["close", kk, r])
     jobs = 0
-    pend_io, pend_cb = [], []
+    pend_io, pend_ul, pend_cb = [], [], []
     for _ in range(rng.choice([3, 5, 8])):
         c = rng.random()
         if c < 0.3:
@@ -329,9 +323,13 @@ def reader_history(rng):
         elif c < 0.6 and held:
             kk, r = held.pop(rng.randrange(len(held)))
             ops.append(["close", kk, r])
-        elif c < 0.75 and pend_io:
+        elif c < 0.70 and pend_io:
             j = pend_io.pop(rng.randrange(len(pend_io)))
             ops.append(["io", j, rng.random() < 0.05])
+            pend_ul.append(j)
+        elif c < 0.80 and pend_ul:
+            j = pend_ul.pop(rng.randrange(len(pend_ul)))
+            ops.append(["unlink", j])
             pend_cb.append(j)
         elif c < 0.88 and pend_cb:
             ops.append(["cb", pend_cb.pop(rng.randrange(len(pend_cb)))])
@@ -353,20 +351,24 @@ def reader_history(rng):
 def corpus():
     leak = (4, [["add", "A", 4, 10], ["add", "B", 2, 20], ["add", "B", 1, 21], ["write", "A", "01020304"], ["close", "A", None]])
     roundtrip = (4, [["add", "k1", 2, 1], ["write", "k1", "0102"], ["close", "k1", None], ["add", "k2", 2, 2], ["write", "k2", "0304"], ["close", "k2", None],
-                     ["add", "k3", 2, 3], ["io", 0, False], ["cb", 0], ["add", "k3", 2, 4], ["write", "k3", "0506"], ["close", "k3", None],
-                     ["get", "k2", 5, [1]], ["io", 1, False], ["cb", 1], ["get", "k2", 6, [1]], ["io", 2, False], ["cb", 2], ["get", "k2", 7, [1]], ["rseg", "k2"]])
+                     ["add", "k3", 2, 3], ["io", 0, False], ["unlink", 0], ["cb", 0], ["add", "k3", 2, 4], ["write", "k3", "0506"], ["close", "k3", None],
+                     ["get", "k2", 5, [1]], ["io", 1, False], ["unlink", 1], ["cb", 1], ["get", "k2", 6, [1]], ["io", 2, False], ["cb", 2], ["get", "k2", 7, [1]], ["rseg", "k2"]])
     purge_read = (4, [["add", "a", 2, 1], ["write", "a", "0a0b"], ["close", "a", None], ["get", "a", 2, [1]], ["get", "a", 3, [2]], ["purge", "a"],
                       ["rseg", "a"], ["close", "a", 1], ["rseg", "a"], ["close", "a", 2], ["rseg", "a"], ["get", "a", 4, [3]]])
     pressure_read = (4, [["add", "a", 2, 1], ["write", "a", "0a0b"], ["close", "a", None], ["add", "b", 2, 2], ["write", "b", "0c0d"], ["close", "b", None],
-                         ["get", "a", 3, [1]], ["add", "c", 4, 4], ["io", 0, False], ["cb", 0], ["add", "c", 4, 5], ["close", "a", 1], ["add", "c", 4, 6],
-                         ["io", 1, False], ["cb", 1], ["add", "c", 4, 7]])
+                         ["get", "a", 3, [1]], ["add", "c", 4, 4], ["io", 0, False], ["unlink", 0], ["cb", 0], ["add", "c", 4, 5], ["close", "a", 1], ["add", "c", 4, 6],
+                         ["io", 1, False], ["unlink", 1], ["cb", 1], ["add", "c", 4, 7]])
     stale_reader = (4, [["add", "a", 4, 1], ["write", "a", "01020304"], ["close", "a", None], ["get", "a", 2, [1]],
-                        ["add", "b", 2, 3], ["add", "b", 2, 3 + S.STALE], ["add", "b", 2, 4 + S.STALE], ["io", 0, False], ["cb", 0], ["add", "b", 2, 5 + S.STALE]])
-    stale_writer = (4, [["add", "a", 3, 1], ["write", "a", "010203"], ["add", "b", 3, 2], ["add", "b", 3, 3 + S.STALE], ["io", 0, False], ["cb", 0],
+                        ["add", "b", 2, 3], ["add", "b", 2, 3 + S.STALE], ["add", "b", 2, 4 + S.STALE], ["io", 0, False], ["unlink", 0], ["cb", 0], ["add", "b", 2, 5 + S.STALE]])
+    stale_writer = (4, [["add", "a", 3, 1], ["write", "a", "010203"], ["add", "b", 3, 2], ["add", "b", 3, 3 + S.STALE], ["io", 0, False], ["unlink", 0], ["cb", 0],
                         ["add", "b", 3, 4 + S.STALE], ["write", "b", "0a0b0c"], ["purge", "b"], ["get", "a", 5 + S.STALE, [1]], ["io", 1, False], ["cb", 1], ["get", "a", 6 + S.STALE, [1]]])
     readd = (10, [["add", "K", 6, 10], ["write", "K", "010203040506"], ["close", "K", None], ["add", "L", 6, 20], ["purge", "K"],
-                  ["add", "K", 6, 30], ["write", "K", "0a0b0c0d0e0f"], ["close", "K", None], ["io", 0, False], ["cb", 0], ["get", "K", 40, [1]]])
-    return [leak, roundtrip, purge_read, pressure_read, stale_reader, stale_writer, readd]
+                  ["add", "K", 6, 30], ["write", "K", "0a0b0c0d0e0f"], ["close", "K", None], ["io", 0, False], ["unlink", 0], ["cb", 0], ["get", "K", 40, [1]]])
+    # the same key written, sent to disk and back, purged, written again with other bytes, sent to disk and back again
+    rewrite = (3, [["alloc", "k1", "0102", 4, 0], ["alloc", "k2", "0304", 4, 0], ["read", "k1", 4, 0], ["purge", "k1"], ["alloc", "k1", "0a0b", 4, 0],
+                   ["read", "k2", 4, 0], ["read", "k1", 4, 0]])
+    # the reader's segment must survive a purge that lands between the halves of a page-out body of ANOTHER generation
+    return [leak, roundtrip, purge_read, pressure_read, stale_reader, stale_writer, readd, rewrite]
 
 
 def nontrivial(obs, w):
@@ -396,6 +398,12 @@ def run(ctx, res):
     rng = ctx.sub_rng("malformed")
     for _ in range(ctx.n(120, 2500)):
         streams.append(("malformed",) + S.gen_history(rng, malformed=True))
+    rng = ctx.sub_rng("rewrite")
+    for _ in range(ctx.n(300, 6000)):
+        streams.append(("rewrite",) + S.rewrite_history(rng))
+    rng = ctx.sub_rng("midpurge")
+    for _ in range(ctx.n(200, 4000)):
+        streams.append(("midpurge",) + S.midpurge_history(rng))
     terms, metas = [], []
     erng = ctx.sub_rng("epilogue")
     with S.patched() as env:
@@ -452,7 +460,7 @@ def search(ctx, res):
     def many():
         rng = ctx.sub_rng("search")
         for i in range(9000):
-            yield [reader_history, S.pressure_history, S.gen_history][i % 3](rng)
+            yield [reader_history, S.pressure_history, S.gen_history, S.rewrite_history, S.midpurge_history][i % 5](rng)
     with S.patched() as env:
         for cap, ops in itertools.chain(first, corpus(), many()):
             d, ops2, obs, crash, bad, w, ep = evaluate(env, cap, ops)
